@@ -345,3 +345,38 @@ def check_value_type(rep, rule, cls, why=None):
         bad.append('return self')
     rep.check(not bad, rule, '%s:pure(%s)' % (cls.site, name), why,
               {'mutations': bad}, line=m.node.lineno)
+  # the constructor copies: a state built from another state's content (or from
+  # a caller's collection) must not share it, otherwise the "pure" operators,
+  # which start from `State(self.value)`, mutate their own receiver
+  init = cls.methods.get('__init__')
+  if init is not None:
+    ps = set(init.params())
+
+    def fresh(e):
+      if isinstance(e, (ast.Constant, ast.Set, ast.Dict, ast.List, ast.Tuple, ast.SetComp,
+                        ast.DictComp, ast.ListComp)):
+        return True
+      if isinstance(e, ast.Call):
+        d = core.dotted(e.func) or ''
+        if d in ('set', 'dict', 'frozenset', 'list', 'tuple', 'copy.copy',
+                 'copy.deepcopy', 'collections.OrderedDict', 'weakref.WeakKeyDictionary'):
+          return True
+        if isinstance(e.func, ast.Attribute) and e.func.attr == 'copy' and not e.args:
+          return True
+        return not any(isinstance(x, ast.Name) and x.id in ps for x in ast.walk(e))
+      if isinstance(e, ast.IfExp):
+        return fresh(e.body) and fresh(e.orelse)
+      if isinstance(e, ast.BoolOp):
+        return all(fresh(v) for v in e.values)
+      # a bare parameter / attribute of a parameter: shared with the caller
+      return not any(isinstance(x, ast.Name) and x.id in ps for x in ast.walk(e))
+    shared = [core.norm(a)[:70] for a in ast.walk(init.node) if isinstance(a, ast.Assign)
+              and any(isinstance(t, ast.Attribute) and core.norm(t.value) == 'self'
+                      for t in a.targets) and not fresh(a.value)]
+    rep.check(not shared, rule, '%s:constructor-copies' % cls.site,
+              'a state object must own its collection: storing the argument '
+              'itself makes `State(self.value)` an alias of self, and the '
+              'operators that update the copy then change the stored state in '
+              'place (the revisit test compares a state with itself)',
+              {'shared': shared}, line=init.node.lineno,
+              witness='two local functions reaching a loop header at different times')
